@@ -227,6 +227,18 @@ def run_unit(u):
                 comp0['pseudos'] = ([mark, other_] if rng.random() < .7 else [other_, mark]) + [p for p in comp0['pseudos'] if p[0] not in ('scope', 'amp')]
                 bump('scope_then_flag_compounds')
             text = sels.render(ast)
+            if isinstance(nsmap, dict) and nsmap and ':--' not in text and rng.random() < .5:
+                # the module-level functions, the compiled object and Beautiful Soup's wrapper given ONE dict that the caller edits in
+                # place between consecutive calls (nothing else compiled in between) - vlib/inplace.py
+                from vlib import inplace
+                keep_ = (case0.nsmap, case0.ext)
+                case0.ext = ext
+                r_ = inplace.sequence(sv, rng, case0, ast, text, nsmap, [NS1, NS2, 'urn:verif:three'])
+                case0.nsmap, case0.ext = keep_
+                bump('inplace_sequences')
+                bump('inplace_compared', r_.get('n', 0))
+                if not r_.get('ok'):
+                    violation(r_['what'], case0, ast, text, **{'class': sig('inplace', r_['what'][:8])})
             flags = sv.DEBUG if rng.random() < .15 else 0
             rec = Recorder()
             if flags:
@@ -302,6 +314,16 @@ def run_unit(u):
                 pool = [rng.choice(all_els or [other.b]) for _ in range(3)] + [other.a, bs4.Comment('c'), other.div, soup,
                                                                   bs4.NavigableString('n')]
                 rng.shuffle(pool)
+                if rng.random() < .5:
+                    # two consecutive items that have no parent at all and belong to different trees (detached fragments from
+                    # different builders, the BeautifulSoup object next to a fragment): each item is its own tree
+                    fa = bs4.BeautifulSoup('<div class="x" id="i1"><p class="y">t</p><span></span></div>', 'html.parser').div.extract()
+                    fb = bs4.BeautifulSoup('<div class="x"><b/><p class="y">t</p></div>', 'xml').div.extract()
+                    fc = bs4.BeautifulSoup('<p class="x y" lang="fr">t</p>', 'html.parser').p.extract()
+                    pair = rng.sample([fa, fb, fc, soup], 2)
+                    k_ = rng.randrange(len(pool) + 1)
+                    pool[k_:k_] = pair
+                    bump('filter_iterables_with_adjacent_parentless_items')
                 exp_f = []
                 fu = False
                 for it in pool:
